@@ -321,8 +321,9 @@ PLAN["C20"] = {
 
 PLAN["C13"] = {
     "level": "exploration",
-    "rule": ("rapid, harness built with the Go race detector, one in-process server per mode (real depth-3/batch-2 system): each case launches 3-8 (thorough 3-16) concurrent clients with rapid-drawn start offsets (0-30 ms, some in a second wave "
-             "100-600 ms later so waves overlap); the first two clients send valid batches built from their own histories (distinct input hashes), the third an unsatisfiable batch, the rest are drawn from the C09 grammar or are /metrics scrapes. "
+    "rule": ("rapid, harness built with the Go race detector, one in-process server per mode (real depth-3/batch-2 system): each case launches 3-8 (thorough 3-16) concurrent clients plus a crowd of 4-20 cheap requests (malformed, mis-shaped, unsatisfiable, other methods) with rapid-drawn start offsets (0-30 ms, a second wave "
+             "100-600 ms later, the crowd spread over 0-400 ms); the first two clients send valid batches built from their own histories (distinct input hashes), half of them inside 1-4 MiB of leading whitespace (production batches are megabytes), "
+             "the third an unsatisfiable batch, the rest are drawn from the C09 grammar or are /metrics scrapes; the run is repeated at GOMAXPROCS 16 and 3 (fewer Ps share per-P caches and interleave more). "
              "Oracle per response: the sequential C09 oracle for that client's own request; a 200 body must verify for that client's input hash and for no other client's hash in the case; and zero race-detector reports in the process "
              "(any report naming the repository's frames fails the run; the report and the case history are the replay artefact). Non-trivial = >= 2 valid responses with distinct hashes, >= 1 failing request and >= 3 requests whose lifetimes "
              "overlapped (measured from client timestamps); distinct = SHA-1 of the canonical case."),
@@ -330,9 +331,12 @@ PLAN["C13"] = {
     "technique": "concurrent property testing with randomised start offsets under the Go race detector; per-response sequential oracle + cross-request proof check",
     "level_text": "Exploration of sampled schedules: a handful (quick) to hundreds (thorough) of concurrent rounds with the race detector armed; isolation is checked cryptographically (a proof verifies only for its own request's hash).",
     "level_note": "schedules are not enumerated; race detection covers executed code paths only; a race report cannot be shrunk and is reported from the log",
-    "quick": [{"test": "TestC13_Deletion", "checks": 5, "race": True, "timeout": 1200, "env": {"GORACE": "halt_on_error=0 exitcode=66"}}],
-    "thorough": [{"test": "TestC13_Deletion", "checks": 12, "shards": 3, "race": True, "timeout": 3000, "env": {"GORACE": "halt_on_error=0 exitcode=66"}},
-                 {"test": "TestC13_Insertion", "checks": 12, "shards": 3, "race": True, "timeout": 3000, "env": {"GORACE": "halt_on_error=0 exitcode=66"}}],
+    "quick": [{"test": "TestC13_Deletion", "checks": 4, "race": True, "timeout": 1500, "env": {"GORACE": "halt_on_error=0 exitcode=66"}},
+              {"test": "TestC13_Deletion", "checks": 4, "race": True, "timeout": 1500, "env": {"GORACE": "halt_on_error=0 exitcode=66", "GOMAXPROCS": "3"}, "shard_base": 1}],
+    "thorough": [{"test": "TestC13_Deletion", "checks": 10, "shards": 2, "race": True, "timeout": 3000, "env": {"GORACE": "halt_on_error=0 exitcode=66"}},
+                 {"test": "TestC13_Deletion", "checks": 10, "shards": 2, "race": True, "timeout": 3000, "env": {"GORACE": "halt_on_error=0 exitcode=66", "GOMAXPROCS": "3"}, "shard_base": 2},
+                 {"test": "TestC13_Insertion", "checks": 10, "shards": 2, "race": True, "timeout": 3000, "env": {"GORACE": "halt_on_error=0 exitcode=66"}},
+                 {"test": "TestC13_Insertion", "checks": 10, "shards": 2, "race": True, "timeout": 3000, "env": {"GORACE": "halt_on_error=0 exitcode=66", "GOMAXPROCS": "2"}, "shard_base": 2}],
 }
 
 PLAN["C14"] = {
